@@ -891,6 +891,7 @@ func (t *rtype) ptrTo() *abi.Type {
 	pp := *prototype
 
 	pp.Str_ = s
+	pp.TFlag &^= abi.TFlagExtraStar // s is the complete string (the prototype *unsafe.Pointer stores its string without the star)
 	pp.PtrToThis_ = nil
 
 	// For the type structures linked into the binary, the
